@@ -186,6 +186,7 @@ def _viol(res, rec, what, selftest=False):
 
 
 def run_instance(p):
+    st.core.FLOOR_LEMMAS = True
     res = InstanceResult(p['id'])
     selftest = p.get('selftest', False)
     {'weight': _run_weight, 'pact': _run_pact, 'bias': _run_bias, 'pact_fp32': _run_pact_fp32}[p['what']](res, p, selftest)
